@@ -238,7 +238,15 @@ def check_seq(prop, tier):
     n = TIER_EXECS[tier]
     wd = os.path.join(OUT, "run_%s_%s_%d" % (prop, tier, os.getpid()))
     kinds = spec["kinds"]
-    execs = [gen_execution(rng, kinds[i % len(kinds)], spec["prof"]) for i in range(n)]
+    prof = spec["prof"]
+    if tier == "thorough":
+        # larger scopes than TLC can enumerate: capacities up to 8, up to 12 keys, longer histories
+        import copy
+        prof = copy.copy(prof)
+        prof.caps = list(prof.caps) + [4, 5, 6, 8]
+        prof.extra_keys = list(prof.extra_keys) + [4]
+        prof.nops = (prof.nops[0], prof.nops[1] * 2)
+    execs = [gen_execution(rng, kinds[i % len(kinds)], prof) for i in range(n)]
     extra_cov = {}
     viol, known = [], []
     infra = None
